@@ -1029,6 +1029,13 @@ fn c09_project(ctx: &mut Ctx, b: &Built, r: &mut StdRng, histories: usize) {
         let rb = run_at(&b.root, &b.case, Mode::Build, b.case.trailing);
         ctx.evals += 1;
         let ref_tree = snap(&b.root);
+        // what "up to date" means: the same sources built from a tree without any generated file
+        ctx.scratch.reuse(&b.root);
+        let sources_only: Files = pre_files.iter().filter(|(k, _)| !gens.contains(k)).map(|(k, v)| (k.clone(), v.clone())).collect();
+        materialize(&b.root, &sources_only, &b.case.dirs);
+        let cb = run_at(&b.root, &b.case, Mode::Build, b.case.trailing);
+        ctx.evals += 1;
+        let clean_tree = snap(&b.root);
         // same pre-state again, same path
         ctx.scratch.reuse(&b.root);
         materialize(&b.root, &pre_files, &b.case.dirs);
@@ -1066,6 +1073,14 @@ fn c09_project(ctx: &mut Ctx, b: &Built, r: &mut StdRng, histories: usize) {
         for g in &gens {
             let want = ref_tree.files.get(g);
             let got = n_tree.files.get(g);
+            if cb.verdict.is_ok() {
+                if let Some(c) = clean_tree.files.get(g) {
+                    if got.map(|e| &e.bytes) != Some(&c.bytes) {
+                        ctx.violation(format!("C09:stale-not-brought-up-to-date:{}", if temps.contains(g) { "temp" } else { "output" }), format!("history {hist:?}: after the needed-build {g} is {} but the same sources built from scratch give {}", show(got.map(|e| &e.bytes[..]).unwrap_or(b"<missing>")), show(&c.bytes)), cj.clone());
+                        continue;
+                    }
+                }
+            }
             if want.map(|e| &e.bytes) != got.map(|e| &e.bytes) {
                 ctx.violation(format!("C09:needed-differs-from-build:{}", if temps.contains(g) { "temp" } else { "output" }), format!("history {hist:?}: {g} after needed {} / after build {}", show(got.map(|e| &e.bytes[..]).unwrap_or(b"<missing>")), show(want.map(|e| &e.bytes[..]).unwrap_or(b"<missing>"))), cj.clone());
                 continue;
